@@ -80,6 +80,12 @@ func runHarness(w *World, verif, tier string, seed int, h harnessSpec) boundedRe
 }
 
 func init() {
+	boundedChecks["C13"] = append(boundedChecks["C13"], func(w *World, tier string, seed int, verif string) []boundedResult {
+		return []boundedResult{runHarness(w, verif, tier, seed, harnessSpec{
+			name: "signature-vs-canon", pkg: "dig", pkgName: "dig", dir: "abi", files: []string{"sig_bounded_test.go"}, run: "TestVerifSigBounded",
+			bound: "real Event.Signature vs an independent canonicalisation: 16 elementary/array leaves, 2-component tuples with 7 array suffixes (incl. [][], [2][], [][4], [3][2][]), tuples nested to depth 3, paired into 2-input events; SignatureHash vs the known Keccak-256 of Transfer/Approval",
+		})}
+	})
 	boundedChecks["C09"] = append(boundedChecks["C09"], func(w *World, tier string, seed int, verif string) []boundedResult {
 		return []boundedResult{runHarness(w, verif, tier, seed, harnessSpec{
 			name: "abi-decode-vs-spec", pkg: "dig", pkgName: "dig", dir: "abi", files: []string{"abi_bounded_test.go"}, run: "TestVerifABIBounded",
